@@ -379,6 +379,7 @@ def r1_key_normalisation(rep, src):
         if fn is None:
             raise AnalysisError('Deb822Dict.%s not found' % mname)
         rep.saw_func(fn)
+        heap.mark()          # the objects that exist now are the mapping; what the call allocates on the way (a module-level marker made on first use) is not
         before = heap.snapshot()
         try:
             r = H.Interp(heap).call(H.Closure(fn.node, {}, me, fn.cls), args)
